@@ -525,9 +525,66 @@ class Interp:
         if not self.truth(self.eval(s.test, env)):
             raise PyRaise("AssertionError", "assert")
 
+    # ---- exceptions: PyRaise is the interpreted program's exception; handlers match by class NAME
+    _EXC_PARENTS = {
+        "ZeroDivisionError": "ArithmeticError", "OverflowError": "ArithmeticError", "FloatingPointError": "ArithmeticError",
+        "KeyError": "LookupError", "IndexError": "LookupError", "NotImplementedError": "RuntimeError", "RecursionError": "RuntimeError",
+        "ModuleNotFoundError": "ImportError", "FileNotFoundError": "OSError", "UnicodeError": "ValueError",
+    }
+
+    def _exc_matches(self, raised: str, wanted: ast.expr) -> bool:
+        if isinstance(wanted, ast.Tuple):
+            return any(self._exc_matches(raised, w) for w in wanted.elts)
+        name = wanted.id if isinstance(wanted, ast.Name) else getattr(wanted, "attr", None)
+        if name is None:
+            raise OutOfReach("exception handler with a computed class")
+        if name in ("Exception", "BaseException"):
+            return True
+        cur: Optional[str] = raised
+        while cur is not None:
+            if cur == name:
+                return True
+            cur = self._EXC_PARENTS.get(cur)
+        return False
+
+    def x_Try(self, s: ast.Try, env: Env) -> None:
+        try:
+            try:
+                self.exec_block(s.body, env)
+            except PyRaise as e:
+                for h in s.handlers:
+                    if h.type is None or self._exc_matches(e.exc, h.type):
+                        saved = env.vars.get("__current_exception__")
+                        env.vars["__current_exception__"] = e
+                        if h.name:
+                            env.vars[h.name] = ExcVal(e)
+                        try:
+                            self.exec_block(h.body, env)
+                        finally:
+                            env.vars["__current_exception__"] = saved
+                            if h.name:
+                                env.vars.pop(h.name, None)
+                        break
+                else:
+                    raise
+            else:
+                self.exec_block(s.orelse, env)
+        finally:
+            if s.finalbody:
+                self.exec_block(s.finalbody, env)
+
     def x_Raise(self, s: ast.Raise, env: Env) -> None:
         if s.exc is None:
-            raise OutOfReach("bare raise")
+            cur = env.vars.get("__current_exception__") if "__current_exception__" in env.vars else None
+            e_: Optional[Env] = env
+            while cur is None and e_ is not None:
+                cur = e_.vars.get("__current_exception__")
+                e_ = e_.parent
+            if isinstance(cur, PyRaise):
+                raise cur
+            raise OutOfReach("bare raise outside a handler")
+        if isinstance(s.exc, ast.Name) and isinstance(env.has(s.exc.id) and env.lookup(s.exc.id), ExcVal):
+            raise env.lookup(s.exc.id).exc
         e = s.exc
         f = e.func if isinstance(e, ast.Call) else e
         name = f.id if isinstance(f, ast.Name) else getattr(f, "attr", "Exception")
@@ -1426,6 +1483,21 @@ class PathResult:
         self.value = value
         self.exc = exc
         self.extra = extra
+
+
+class ExcVal:
+    """the value bound by `except X as e`"""
+
+    def __init__(self, exc: PyRaise):
+        self.exc = exc
+
+    def pyvc_getattr(self, interp: Any, name: str) -> Any:
+        if name == "args":
+            return (OpaqueStr(),)
+        raise PyRaise("AttributeError", name)
+
+    def pyvc_types(self) -> Any:
+        return {self.exc.exc, "Exception", "BaseException"}
 
 
 class PathList(list):  # type: ignore[type-arg]
